@@ -172,6 +172,9 @@ func runC01(c *Ctx) {
 		c.floor("R16", 4)
 	}
 	checkConcurrentCopyOnlyOfRegularFiles(c, "R17")
+	// R18 (shared with C13.R4): a sequential chunk loop ends with the failing chunk's error and a count that includes
+	// what that chunk still moved
+	checkSequentialLoops(c, "R18")
 	isOffsetField := func(key string) bool { return strings.HasPrefix(key, "fld:") && strings.HasSuffix(key, ".offset") }
 
 	// start offset of a transfer: the `off` parameter of the enclosing File method, or a load of f.offset
